@@ -54,7 +54,7 @@ def items(tier: str, seed: int) -> list[dict]:
         base = {"doc": "unit3", "phases": ["fuzzing"], "workers": 2, "max_failures": None, "cof": False, "behaviour": "ok",
                 "fault": None, "p": p, "e": e, "max_examples": 1, "unique": False, "total": b["total_deviations"]}
         base.update(kw)
-        out.append(base)
+        out.extend(ee.sharded(base, 4 if base["workers"] > 1 else 1))
 
     for n in b["max_examples"]:
         add(max_examples=n, e=0)
@@ -162,7 +162,10 @@ def judge(item: dict, run: Any, r: Any, res: Result, current_item: dict) -> None
     if env is not None and T is not None:
         reached = True
         for e, n, t in zip(events, names, r.event_times):
-            if n == "ScenarioStarted" and t > T:
+            # a scenario is *started* when its worker announces it (queues the event), not when the consumer reads it:
+            # workers may run ahead of the consumer, and events queued before the stop request are still delivered
+            started_at = r.put_times.get(id(e), t)
+            if n == "ScenarioStarted" and started_at > T:
                 bad("scenario_started_after_stop_request", phase=_phase_name(e))
         per_thread: dict[str, int] = {}
         for x in r.exchanges:
